@@ -41,7 +41,7 @@ def prop_of_label(label):
     return None
 
 
-def run_unit(unit_dir, tier, relock=False):
+def run_unit(unit_dir, tier, relock=False, known_ids=()):
     unit = os.path.basename(unit_dir)
     res = {'unit': unit, 'status': 'ok', 'undecided': [], 'failures': [], 'obligations': [], 'assumptions': [],
            'info': {}, 'solver_ms': 0, 'wall': 0.0, 'functions': [], 'vacuity': {'probes': 0, 'failed_as_required': 0}}
@@ -83,6 +83,43 @@ def run_unit(unit_dir, tier, relock=False):
             r3 = f3.result() if f3 else None
         res['checker_cmd'] = r1['cmd']
         analyse(res, asm, r1)
+        # known findings: if every failure of this unit is a listed finding, blank exactly those clauses (-> `true`) and verify
+        # again, so that the remaining obligations of the same functions are decided instead of left unknown
+        kf = [f for f in res['failures'] if f['obligation'] in known_ids]
+        if kf and len(kf) == len(res['failures']) and not res['undecided']:
+            blank = set()
+            for fn in asm['fns']:
+                for cl in fn['clauses']:
+                    if cl.get('id') in set(f['obligation'] for f in kf):
+                        blank.add((cl['first'], cl['last']))
+            g2 = vlib.Gen()
+            for t, o in asm['gen'].lines:
+                rng = [b for b in blank if o[0] == 'tpl' and isinstance(o[1], int) and b[0] <= o[1] <= b[1]]
+                if rng:
+                    if o[1] == rng[0][0]:
+                        m = re.match(r'\s*(requires|ensures|invariant_except_break|invariant|decreases)\b', t)
+                        t = (m.group(1) + ' ' if m else '') + 'true, // known finding: clause checked separately'
+                    else:
+                        t = ''
+                g2.lines.append((t, o))
+            src2 = os.path.join(bdir, unit + '_kf.rs')
+            open(src2, 'w').write(g2.text())
+            r1b = vlib.run_verus(src2, extra)
+            keep_fail = res['failures']
+            res2 = dict(res, failures=[], obligations=[], undecided=[], functions=[])
+            asm2 = dict(asm, gen=g2)
+            analyse(res2, asm2, r1b)
+            known_set = set(f['obligation'] for f in kf)
+            obl = []
+            for o in res2['obligations']:
+                if o['id'] in known_set:
+                    o['status'] = 'known-finding'
+                obl.append(o)
+            res['obligations'] = obl
+            res['failures'] = keep_fail + res2['failures']
+            res['undecided'] = res2['undecided']
+            res['functions'] = res2['functions']
+            res['known_pass'] = {'file': src2, 'blanked_clauses': sorted(known_set)}
         analyse_vacuity(res, vac, r2, extra)
         if r3 is not None:
             res['rlimit_recheck'] = {'rc': r3['rc'], 'note': 'same file with --rlimit 20 (informational: stability of the proof)'}
@@ -279,9 +316,6 @@ def run_witness(prop, only=None):
     """bounded witness search / replay of recorded histories against the REAL crate; never decides 'holds'"""
     import subprocess
     pref = only or prop.lower()
-    src = os.path.join(VERIF, 'witness', 'src', prop.lower() + '.rs')
-    if only is None and not os.path.exists(src):
-        return {'ran': False, 'reason': 'no witness program for this property', 'results': []}
     t0 = time.time()
     try:
         p = subprocess.run([os.path.join(VERIF, 'tool', 'witness.sh'), pref], capture_output=True, text=True, timeout=1500)
@@ -292,6 +326,8 @@ def run_witness(prop, only=None):
         m = re.match(r'(REPRODUCED|NOT-REPRODUCED) (\S+) ?(.*)', line)
         if m:
             res.append({'name': m.group(2), 'reproduced': m.group(1) == 'REPRODUCED', 'detail': m.group(3)})
+    if p.returncode == 2 and not res:
+        return {'ran': False, 'reason': 'no witness program for this property', 'results': []}
     if p.returncode != 0 and not res:
         return {'ran': False, 'reason': 'witness build/run failed: ' + (p.stderr or '')[-600:], 'results': []}
     return {'ran': True, 'wall_s': round(time.time() - t0, 1), 'results': res}
@@ -324,11 +360,11 @@ def main():
     if not unit_dirs:
         print('UNDECIDED property=%s reason=no unit serves this property' % prop)
         return 2
-    with cf.ThreadPoolExecutor(max(1, min(8, len(unit_dirs)))) as ex:
-        results = list(ex.map(lambda u: run_unit(u, tier, relock), unit_dirs))
-
     known = [k for k in load_known()['findings'] if k.get('property') == prop and k.get('status') == 'open']
     known_ids = {k['obligation']: k for k in known}
+    with cf.ThreadPoolExecutor(max(1, min(8, len(unit_dirs)))) as ex:
+        results = list(ex.map(lambda u: run_unit(u, tier, relock, tuple(known_ids)), unit_dirs))
+
     obligations, failures, undecided = [], [], []
     for r in results:
         for o in r['obligations']:
@@ -368,6 +404,8 @@ def main():
         witness = run_witness(prop)
     w_hits = [r for r in witness['results'] if r['reproduced']]
     new_w = [r for r in w_hits if r['name'] not in known_w]
+    kf_obl = [o for o in obligations if o['status'] == 'known-finding']
+    obligations = [o for o in obligations if o['status'] != 'known-finding']
     n_obl = len(obligations)
     n_dis = sum(1 for o in obligations if o['status'] == 'discharged')
     trusted = []
@@ -397,6 +435,7 @@ def main():
             'undecided': undecided,
             'failed_obligations': [f['obligation'] for f in failures],
             'known_findings_seen': [f['obligation'] for f in seen_known],
+            'known_finding_obligations_not_counted': [o['id'] for o in kf_obl],
             'solver_time_s': round(sum(r['solver_ms'] for r in results) / 1000.0, 3),
             'witness_search': dict(witness, note='bounded enumeration / recorded histories executed on the real crate through its public API; used only to attach a concrete failing input to a violation (and as conformance check of the contracts in the thorough tier); never counted as proof'),
         },
@@ -408,11 +447,11 @@ def main():
         os.makedirs(os.path.join(VERIF, 'evidence'), exist_ok=True)
         json.dump(ev, open(os.path.join(VERIF, 'evidence', prop + '.json'), 'w'), indent=1)
 
-    for f in seen_known:
-        print('KNOWN-FINDING: property=%s %s — %s' % (prop, f['obligation'], known_ids[f['obligation']].get('what', '')))
-    for r in w_hits:
-        if r['name'] in known_w and not any(f['obligation'] == known_w[r['name']]['obligation'] for f in seen_known):
-            print('KNOWN-FINDING: property=%s %s — %s' % (prop, known_w[r['name']].get('obligation', r['name']), known_w[r['name']].get('what', '')))
+    failing_ids = set(f['obligation'] for f in failures)
+    reproduced = set(r['name'] for r in w_hits)
+    for k in known:
+        if (k.get('obligation') and k['obligation'] in failing_ids) or (k.get('witness') and k['witness'] in reproduced):
+            print('KNOWN-FINDING: property=%s %s — %s' % (prop, k.get('obligation') or ('witness ' + k['witness']), k.get('what', '')))
     if new_w:
         os.makedirs(os.path.join(VERIF, 'replay'), exist_ok=True)
         rp = os.path.join(VERIF, 'replay', '%s-%d.json' % (prop, int(time.time())))
